@@ -10,7 +10,7 @@ from vlib.core import Leg, call
 A = pms.adsb
 PROPERTY = "C14"
 RULE = ("cell table: DF 0..31 x (for DF17/18) type code 0..31 x the three bits after the type code (TC19/28/31 subtype, TC29 subtype + 1 bit), every cell with payloads "
-        "{all-zero, all-one, random x k}; frames of the documented length (28 digits for adsb/commb/bds, 14 for surv/allcall, both for df/crc/icao/typecode/uplink, "
+        "{all-zero, all-one, random x k, DF11 parity overlays 0..255, CPR latitude fields decoding to 0/87/pole}; frames of the documented length (28 digits for adsb/commb/bds, 14 for surv/allcall, both for df/crc/icao/typecode/uplink, "
         "length-consistent for tell); every name in adsb.__all__, commb.__all__, surv, allcall, the common helpers, bds.infer, is50or60, tell and uplink.* is called "
         "with its extra arguments over their documented sets. Oracle: (a) the call returns or raises RuntimeError, nothing else; (b) guard table from the docstrings: "
         "outside the accepted DF/TC(/TC29 subtype) set -> RuntimeError, inside -> a value; (c) documented shape of the value; (d) dispatchers equal the variant chosen "
@@ -93,7 +93,7 @@ reg("altitude", tcg(TC_POS), onum)
 reg("velocity", tcg(range(5, 9), 19), V4)
 reg("velocity+source", tcg(range(5, 9), 19), V6)
 reg("speed_heading", tcg(range(5, 9), 19), opt(tup(onum, onum)))
-reg("position_with_ref", tcg(TC_POS), tup(is_num, is_num), (10.0, 20.0), (-89.9, -179.9), (0.0, 0.0))
+reg("position_with_ref", tcg(TC_POS), tup(is_num, is_num), (10.0, 20.0), (-89.9, -179.9), (0.0, 0.0), (87.0, 10.0), (-87.0, -170.0))
 reg("airborne_position_with_ref", lambda *a: "any", tup(is_num, is_num), (10.0, 20.0))
 reg("surface_position_with_ref", lambda *a: "any", tup(is_num, is_num), (10.0, 20.0))
 reg("version", tcg(31), is_int)
@@ -149,10 +149,18 @@ def enum_cells(ctx):
         for tc in (range(32) if df in (17, 18) else [None]):
             for st3 in (range(8) if tc is not None else [None]):
                 rng = ctx.rng("cell", df, tc, st3)
-                for low in cell_payloads(rng, k):
+                variants = [(low, None) for low in cell_payloads(rng, k)]
+                if df == 11:  # parity overlay = (CL, IC) code: all-call replies with reserved CL 5-7 and corrupt overlays
+                    variants += [(rng.getrandbits(48), ov) for ov in (0, 15, 16, 79, 80, 96, 111, 127, 128, 255, 0x800000)]
+                if tc is not None and tc in TC_POS:  # CPR fields that decode to the special latitudes of NL (0, 87, poles) with either parity
+                    for latf in (0, 65536, 32768, 131071, 1):
+                        for f in (0, 1):
+                            variants.append(((rng.getrandbits(12) << 36) | (f << 34) | (latf << 17) | rng.getrandbits(17), None))
+                for low, addr in variants:
                     idx += 1
                     if ctx.mine(idx):
-                        yield {"df": df, "tc": tc, "st3": st3, "low48": low, "ctx_addr": rng.getrandbits(24), "ctx_head": rng.getrandbits(27), "hc": rng.choice("ULM")}
+                        yield {"df": df, "tc": tc, "st3": st3, "low48": low, "ctx_addr": rng.getrandbits(24) if addr is None else addr, "ctx_head": rng.getrandbits(27),
+                               "hc": rng.choice("ULM")}
 
 
 def build_long(c):
